@@ -262,3 +262,46 @@ def with_scratch_config(cfg):
         def __exit__(self, *a):
             shutil.rmtree(self.d, ignore_errors=True)
     return _C()
+
+
+def node_sizes_dir(log=None):
+    """directory holding container_node_sizes_impl.hpp generated by the repository's own cmake script
+    (cmake/get_container_node_sizes.cmake) in a scratch configure; cached by the content of /repo/cmake and the CMakeLists files"""
+    h = hashlib.sha256()
+    paths = [os.path.join(REPO, 'CMakeLists.txt'), os.path.join(REPO, 'src', 'CMakeLists.txt')]
+    for root, dirs, files in os.walk(os.path.join(REPO, 'cmake')):
+        dirs.sort()
+        for f in sorted(files):
+            paths.append(os.path.join(root, f))
+    for p in paths:
+        h.update(p.encode())
+        try:
+            h.update(open(p, 'rb').read())
+        except OSError:
+            h.update(b'<missing>')
+    key = h.hexdigest()[:20]
+    out = os.path.join(CACHE, 'nodesizes', key)
+    hdr = os.path.join(out, 'container_node_sizes_impl.hpp')
+    if os.path.exists(hdr):
+        return out
+    os.makedirs(out, exist_ok=True)
+    scratch = tempfile.mkdtemp(prefix='verif-cmake-')
+    try:
+        t0 = time.time()
+        p = subprocess.run(['cmake', '-S', REPO, '-B', scratch, '-G', 'Ninja', '-DFOONATHAN_MEMORY_BUILD_TESTS=OFF',
+                            '-DFOONATHAN_MEMORY_BUILD_EXAMPLES=OFF', '-DFOONATHAN_MEMORY_BUILD_TOOLS=OFF'],
+                           stdout=subprocess.PIPE, stderr=subprocess.STDOUT, text=True)
+        gen = os.path.join(scratch, 'src', 'container_node_sizes_impl.hpp')
+        if p.returncode != 0 or not os.path.exists(gen):
+            raise AnalysisBroken('scratch cmake configure did not produce container_node_sizes_impl.hpp:\n' + p.stdout[-1500:])
+        shutil.copy(gen, hdr)
+        if log:
+            log('generated container_node_sizes_impl.hpp through the repository\'s cmake script (%.1fs)' % (time.time() - t0))
+    finally:
+        shutil.rmtree(scratch, ignore_errors=True)
+    # keep at most two generations
+    root = os.path.join(CACHE, 'nodesizes')
+    ents = sorted(((os.path.getmtime(os.path.join(root, e)), e) for e in os.listdir(root)), reverse=True)
+    for _, e in ents[2:]:
+        shutil.rmtree(os.path.join(root, e), ignore_errors=True)
+    return out
